@@ -68,13 +68,33 @@ func checkFrontendListener(c *core.Ctx) {
 		c.Undecided("R20.1", "frontend", 0, "frontend package not loaded")
 		return
 	}
+	// anchored semantically: the functions that load the after / before trampoline tables of the module context
 	var after, before *ssa.Function
-	for _, fn := range fns {
-		switch fn.Name() {
-		case "callListenerAfter":
-			after = fn
-		case "callListenerBefore":
-			before = fn
+	if fp := c.Pkg(rel); fp != nil {
+		names := map[string]string{}
+		core.AllFuncDecls(fp, func(fd *ast.FuncDecl) {
+			ast.Inspect(fd.Body, func(x ast.Node) bool {
+				if se, ok := x.(*ast.SelectorExpr); ok {
+					switch se.Sel.Name {
+					case "AfterListenerTrampolines1stElement":
+						names[fd.Name.Name] = "after"
+					case "BeforeListenerTrampolines1stElement":
+						names[fd.Name.Name] = "before"
+					}
+				}
+				return true
+			})
+		})
+		for _, fn := range fns {
+			if fn.Parent() != nil {
+				continue
+			}
+			switch names[fn.Name()] {
+			case "after":
+				after = fn
+			case "before":
+				before = fn
+			}
 		}
 	}
 	need := structField(c, rel, "Compiler", "needListener")
